@@ -73,4 +73,4 @@ def run(ctx):
     ctx.evaluations = len(cases) * 2
     ctx.distinct_nontrivial = nt
     ctx.search_stats = {"cases": len(cases), "subsets": len(subsets)}
-    ctx.samples = [{"features": metas[7][0], "line": cases[7][11], "impl": textgen.outlines(i[7])[0]}]
+    ctx.samples = [dict(textgen.sample(cases[7], i[7], 0), features=metas[7][0])]
